@@ -2,7 +2,10 @@
    run through the action chain by the stream's current owner (Model/Proc.v; a processor starts and
    leaves a stream with nothing held, so the successive owners of a stream behave as one logical
    processor), handed to the output (Out), appended to the output's batcher (Add), committed to the
-   input.  The composition adds two FIFO disciplines to Proc.v, each justified by a component:
+   input.  The composition adds one structural guard (F0) and two FIFO disciplines (F1, F2) to Proc.v, each justified by a component:
+     F0  a synchronous output (it commits from inside Out) has no batcher: no ordered event of the
+         stream is ever added to one — a guard, checked on every real trace; without it the flow
+         theorems fail (Proofs/StreamFlow.v, [fstep_noF0]);
      F1  an event is added to the batcher in the order it was handed to the output (the processor calls
          the output synchronously from the goroutine that owns the stream) — a guard, checked on every
          real trace;
@@ -46,6 +49,7 @@ Definition fstep (s : fst_) (l : flabel) : option fst_ :=
       end
   | FAdd e =>
       if negb (ordered e) then Some s else
+      if sync_out s then None else                                       (* F0: a synchronous output has no batcher *)
       match outq s with
       | x :: r => if pseq x =? pseq e                                    (* F1 *)
                   then Some {| proc := proc s; outq := r; addq := addq s ++ [x]; commits := commits s; sync_out := sync_out s |}
